@@ -14,11 +14,13 @@ CHECK = {
                             "api_cast_o_e", "api_setorigin_cast_e", "api_cast_e_keep_origin",
                             "api_setorigin_setend_cast", "api_next_loop",
                             "disturb_stray_next", "disturb_stale_cast", "disturb_setend_only",
-                            "disturb_setorigin_only"],
+                            "disturb_setorigin_only",
+                            "grid_change_set_mapping", "grid_change_reassign_object",
+                            "same_origin_after_grid_change"],
     "required_oracles": ["history.equals_fresh_caster", "accessors", "length.l1_plus_1", "start.cell_of_origin",
                          "start.contains_origin_cells", "in_bounds", "steps.face_adjacent",
                          "segment.cell_gap_cells", "end.closed_extent_cells", "end.own_cell"],
-    "required_counters": ["casts", "history_compared_on_reused_caster", "cells_checked_against_segment",
+    "required_counters": ["casts", "casts_right_after_grid_change", "history_compared_on_reused_caster", "cells_checked_against_segment",
                           "float_rays_segment_checked"],
     "rule": "case = one grid (float/double x 2D/3D drawn per case; resolution from {0.1, 0.125, 0.01, 1, 0.5, 0.25, "
             "0.05, 0.2, 1/16, 1/64} or log-uniform in [0.01,1]; 1..2000 cells per axis; range constructor or interval "
@@ -31,7 +33,10 @@ CHECK = {
             "reverse of the previous ray, end on borders/corners}; the cast goes through one of cast(o,e) / "
             "setOriginPoint+cast(e) / cast(e) keeping the origin / setOriginPoint+setEndPoint+cast() / the manual "
             "next() loop, after one of {nothing, 1..40 stray next(), a stale cast(), setEndPoint only, setOriginPoint "
-            "only}; non-trivial = not (double 2D range-constructor grid with only generic rays and no disturbance), "
+            "only}; with probability 0.12 between two casts the grid seen by the caster changes (setGridIndexMapping "
+            "to a second mapping, or a new mapping assigned to the pointed-to object: same bounds with another "
+            "resolution, perturbed bounds, or an unrelated grid) and the next cast specifies its origin, 65 % of the "
+            "time the bit-identical origin of the previous cast (clamped into the new extent); non-trivial = not (double 2D range-constructor grid with only generic rays and no disturbance), "
             "i.e. outside what the unit tests cast",
     "level_text": "exploration: the real ray caster is executed on 2e4 (quick) / 8e5 (thorough) generated grids with "
                   "~12 / ~17 casts each on one reused caster; every returned cell sequence is checked exactly (first cell, "
@@ -52,6 +57,9 @@ CHECK = {
                     "cast() without arguments on a caster whose end point was not set since the last traversal is outside "
                     "the history clause (the statement covers casts that specify their end point); it is only used as a "
                     "disturbance",
+                    "after the grid seen by the caster changed, the first cast specifies its origin (cast(o,e) or "
+                    "setOriginPoint first); cast(e) / setEndPoint relying on an origin given under the previous grid are "
+                    "not exercised",
                     "points are drawn inside the closed interval given to the grid constructor, |coordinates| <= 1000",
                     "g++ 12 ASan+UBSan runtime; asserts live (no -DNDEBUG)"],
 }
